@@ -438,6 +438,18 @@ bool varintBitmapContains(const varintBitmap *vb, uint16_t value) {
     return false;
 }
 
+/* Add a member to the result of a set operation.  varintBitmapAdd() returns
+ * false both for "already present" and for "out of memory"; only the latter
+ * leaves the value absent.  On failure the result is released. */
+static bool resultAdd_(varintBitmap *result, uint16_t value) {
+    if (varintBitmapAdd(result, value) ||
+        varintBitmapContains(result, value)) {
+        return true;
+    }
+    varintBitmapFree(result);
+    return false; /* Out of memory */
+}
+
 varintBitmap *varintBitmapAnd(const varintBitmap *vb1,
                               const varintBitmap *vb2) {
     varintBitmap *result = varintBitmapCreate();
@@ -454,7 +466,9 @@ varintBitmap *varintBitmapAnd(const varintBitmap *vb1,
             uint16_t v2 = vb2->container.array.values[j];
 
             if (v1 == v2) {
-                varintBitmapAdd(result, v1);
+                if (!resultAdd_(result, v1)) {
+                    return NULL;
+                }
                 i++;
                 j++;
             } else if (v1 < v2) {
@@ -473,8 +487,9 @@ varintBitmap *varintBitmapAnd(const varintBitmap *vb1,
 
     varintBitmapIterator it = varintBitmapCreateIterator(smaller);
     while (varintBitmapIteratorNext(&it)) {
-        if (varintBitmapContains(other, it.currentValue)) {
-            varintBitmapAdd(result, it.currentValue);
+        if (varintBitmapContains(other, it.currentValue) &&
+            !resultAdd_(result, it.currentValue)) {
+            return NULL;
         }
     }
 
@@ -489,7 +504,9 @@ varintBitmap *varintBitmapOr(const varintBitmap *vb1, const varintBitmap *vb2) {
 
     varintBitmapIterator it = varintBitmapCreateIterator(vb2);
     while (varintBitmapIteratorNext(&it)) {
-        varintBitmapAdd(result, it.currentValue);
+        if (!resultAdd_(result, it.currentValue)) {
+            return NULL;
+        }
     }
 
     return result;
@@ -505,16 +522,18 @@ varintBitmap *varintBitmapXor(const varintBitmap *vb1,
     /* Add elements from vb1 that are not in vb2 */
     varintBitmapIterator it1 = varintBitmapCreateIterator(vb1);
     while (varintBitmapIteratorNext(&it1)) {
-        if (!varintBitmapContains(vb2, it1.currentValue)) {
-            varintBitmapAdd(result, it1.currentValue);
+        if (!varintBitmapContains(vb2, it1.currentValue) &&
+            !resultAdd_(result, it1.currentValue)) {
+            return NULL;
         }
     }
 
     /* Add elements from vb2 that are not in vb1 */
     varintBitmapIterator it2 = varintBitmapCreateIterator(vb2);
     while (varintBitmapIteratorNext(&it2)) {
-        if (!varintBitmapContains(vb1, it2.currentValue)) {
-            varintBitmapAdd(result, it2.currentValue);
+        if (!varintBitmapContains(vb1, it2.currentValue) &&
+            !resultAdd_(result, it2.currentValue)) {
+            return NULL;
         }
     }
 
@@ -530,8 +549,9 @@ varintBitmap *varintBitmapAndNot(const varintBitmap *vb1,
 
     varintBitmapIterator it = varintBitmapCreateIterator(vb1);
     while (varintBitmapIteratorNext(&it)) {
-        if (!varintBitmapContains(vb2, it.currentValue)) {
-            varintBitmapAdd(result, it.currentValue);
+        if (!varintBitmapContains(vb2, it.currentValue) &&
+            !resultAdd_(result, it.currentValue)) {
+            return NULL;
         }
     }
 
